@@ -372,4 +372,64 @@ theorem sliceBase_fresh (b b' : Base) (sl : List PSlice) (h : b.WF) (hv : b.view
     exact ⟨rfl, rfl⟩
   · simp at hs
 
+/-! ### the handler's answer to a variable named twice -/
+
+theorem mapM_ok_id {α : Type} (f : α → Except Exc α) : ∀ (l : List α), (∀ x ∈ l, f x = .ok x) → l.mapM f = .ok l
+  | [], _ => rfl
+  | a :: as, h => by
+    rw [List.mapM_cons, h a (by simp), mapM_ok_id f as (fun x hx => h x (by simp [hx]))]
+    rfl
+
+theorem applySelection_nil (ds : Dataset) : applySelection [] ds = .ok ds := by
+  unfold applySelection
+  rw [mapM_ok_id _ ds.vars]
+  · rfl
+  · intro v _
+    cases v <;> rfl
+
+theorem sliceBase_name {b b' : Base} {sl : List PSlice} (h : sliceBase b sl = .ok b') : b'.name = b.name := by
+  unfold sliceBase at h
+  split at h
+  · simp only [Except.ok.injEq] at h; subst h; rfl
+  · simp at h
+
+/-- the slice pass on an output that holds the one array `b`: `sliceBase` -/
+theorem slice1_single (b : Base) (sl : List PSlice) (hs : sl ≠ []) :
+    slice1 [.base b] (.path [(b.name, sl)]) = (sliceBase b sl >>= fun b' => pure [.base b']) := by
+  simp only [slice1, hs, if_false, findVar, List.find?_cons, Var.name, decide_true, bind, Except.bind, pure, Except.pure]
+  cases sliceBase b sl with
+  | error e => rfl
+  | ok b' => simp [Var.name]
+
+/-- **the handler's answer to `?a[s1],a[s2]`** for a top-level array `a`: the second hyperslab is applied, by
+    `sliceBase`, to what the first one left -/
+theorem constrain_repeated (ds : Dataset) (b : Base) (sl1 sl2 : List PSlice)
+    (hf : findVar ds.vars b.name = some (.base b)) (h1 : sl1 ≠ []) (h2 : sl2 ≠ []) :
+    constrain ds [.path [(b.name, sl1)], .path [(b.name, sl2)]] []
+      = (sliceBase b sl1 >>= fun b1 => sliceBase b1 sl2 >>= fun b2 =>
+          pure { ds with vars := [.base b2] }) := by
+  have hc : (ds.vars.map Var.name).contains b.name = true := by
+    have := List.mem_of_find?_eq_some hf
+    have hp := List.find?_some hf
+    simp only [decide_eq_true_eq] at hp
+    simp only [List.contains_iff_mem, List.mem_map]
+    exact ⟨_, this, hp⟩
+  have hflt : ([] : List Var).filter (fun v => decide (v.name ≠ (Var.base b).name)) ++ [Var.base b] = [.base b] := rfl
+  have hflt2 : ([Var.base b]).filter (fun v => decide (v.name ≠ (Var.base b).name)) ++ [Var.base b] = [.base b] := by
+    simp [Var.name]
+  unfold constrain
+  rw [applySelection_nil]
+  simp only [bind, Except.bind, pure, Except.pure, List.mapM_cons, List.mapM_nil, fixShorthand1, hc, if_true,
+    List.cons_ne_nil, if_false, applyProjection, List.foldlM_cons, List.foldlM_nil, collect1, collect1Core, hf,
+    setVar, hflt, hflt2, fixSeqData]
+  rw [slice1_single b sl1 h1]
+  simp only [bind, Except.bind, pure, Except.pure]
+  cases hb1 : sliceBase b sl1 with
+  | error e => rfl
+  | ok b1 =>
+    simp only
+    rw [← sliceBase_name hb1, slice1_single b1 sl2 h2]
+    simp only [bind, Except.bind, pure, Except.pure]
+    cases sliceBase b1 sl2 <;> rfl
+
 end Pydap.Handler
